@@ -274,17 +274,21 @@ func ApplyEdit(g G, p *Project, d *verifsim.Disk, inPlace bool) string {
 			}
 			desc += " " + pk.Dir
 		} else {
-			switch g.n(3) {
+			switch g.n(4) {
 			case 0:
 				p.HasRootPJ = !p.HasRootPJ
 				if !p.HasRootPJ {
 					d.RemoveAll(p.Root + "/package.json")
 				}
+			case 3:
+				// layout only: "type" keeps its value but moves to another line / column
+				p.HasRootPJ = true
+				p.PJPad = (p.PJPad + 1 + g.n(2)) % 5
 			default:
 				p.HasRootPJ = true
 				p.PkgType = []string{"", "module", "commonjs"}[g.n(3)]
 			}
-			desc += fmt.Sprintf(" root present=%v type=%q", p.HasRootPJ, p.PkgType)
+			desc += fmt.Sprintf(" root present=%v type=%q pad=%d", p.HasRootPJ, p.PkgType, p.PJPad)
 		}
 	case EdTSConfig:
 		switch {
